@@ -1,15 +1,17 @@
 (** * GaussFull: [GaussFacts] for the concrete distribution function of GaussInst.v.
 
     [GaussInst.PhiK] / [GaussInst.PhiinvK] satisfy the whole record [GaussFacts]
-    (RInst.v) as soon as the value of the Gaussian integral is known:
-      [GIV : 2 * Iinf = sqrt (2 * PI)],  [Iinf = lim_{x -> oo} int_0^x exp (-t^2/2) dt].
-    Everything else is proved here without hypothesis, in particular the numeric field
+    (RInst.v): [GaussFacts_inst], without any hypothesis.  The value of the Gaussian integral
+      [GIV : 2 * Iinf = sqrt (2 * PI)],  [Iinf = lim_{x -> oo} int_0^x exp (-t^2/2) dt],
+    comes from GaussIntegral.v ([GIV_holds]); [GaussFacts_inst_cond : GIV -> GaussFacts ...]
+    is the intermediate step.  Everything else is proved here, in particular the numeric field
     [gf_tail8] ([PhiK_tail8]: a Mills-ratio lower bound for the tail beyond 8, a crude
     upper bound for [Iinf], and rational bounds for [exp (-32)] by repeated squaring --
     no interval-arithmetic tactic, hence no primitive-integer/float dependency). *)
 From Coq Require Import Reals Lra Lia.
 From Coquelicot Require Import Coquelicot.
 From OSV Require Import RInst GaussInst GaussCalc.
+From OSV Require GaussIntegral.
 Open Scope R_scope.
 
 (** ** The Gaussian integral value *)
@@ -65,7 +67,7 @@ Proof.
     by (unfold plus; cbn; ring).
   apply (is_derive_plus G (fun x : R => x / (x * x + 1) * g x)).
   - apply G_derive.
-  - unfold g. auto_derive; [exact N | field; exact N].
+  - unfold g. auto_derive; [exact N | unfold Rdiv; field; exact N].
 Qed.
 
 Lemma mills_window (a b : R) : a <= b ->
@@ -122,9 +124,9 @@ Proof. unfold g. replace (- (8 * 8) / 2) with (- 32) by lra. exact exp_m32_low. 
 
 Lemma g_40_up : g 40 <= g 8 / 769.
 Proof.
-  unfold g. replace (- (40 * 40) / 2) with (- (8 * 8) / 2 + - 768) by lra.
+  unfold g. replace (- (40 * 40) / 2) with (- (8 * 8) / 2 + Ropp 768) by lra.
   rewrite exp_plus. pose proof (exp_pos (- (8 * 8) / 2)) as P.
-  assert (H : exp (- 768) <= / 769).
+  assert (H : exp (Ropp 768) <= / 769).
   { rewrite exp_Ropp. pose proof (exp_ineq1 768 ltac:(lra)) as H.
     left. apply Rinv_lt_contravar; [|lra].
     apply Rmult_lt_0_compat; [lra | apply exp_pos]. }
@@ -159,3 +161,12 @@ Proof.
   - exact PhiK_tail8.
 Qed.
 Print Assumptions GaussFacts_inst_cond.
+
+(** ** The Gaussian integral value (GaussIntegral.v) and the unconditional instance *)
+Theorem GIV_holds : GIV.
+Proof. exact (GIV_of_limit GaussIntegral.gauss_integral). Qed.
+Print Assumptions GIV_holds.
+
+Theorem GaussFacts_inst : GaussFacts PhiK PhiinvK.
+Proof. exact (GaussFacts_inst_cond GIV_holds). Qed.
+Print Assumptions GaussFacts_inst.
